@@ -346,9 +346,19 @@ func genRemTwoStep(g *Gen, idx int) {
 	}
 	mine(filler())
 	// K: ordinary coinbase paying both wallets; D, E: coinbases paying only W2 (each may be mined a second time)
-	op("tx", "tx K %d cb A2:1000;A1:1000;A2:1000", next())
-	op("tx", "tx D %d cb A2:1000;A2:1000", next())
-	op("tx", "tx E %d cb A2:1000;A2:1000", next())
+	// (some of W2's coins are staking deposits: Rollback then also moves the deposit records keyed by the wallet id)
+	stk := map[string]bool{}
+	w2out := func(coin string) string {
+		if r.Intn(3) == 0 {
+			stk[coin] = true
+			g.Stats["two-step-staking-coin"]++
+			return "A2:1000:stk:3"
+		}
+		return "A2:1000"
+	}
+	op("tx", "tx K %d cb %s;A1:1000;%s", next(), w2out("K:0"), w2out("K:2"))
+	op("tx", "tx D %d cb %s;%s", next(), w2out("D:0"), w2out("D:1"))
+	op("tx", "tx E %d cb %s;%s", next(), w2out("E:0"), w2out("E:1"))
 	order := [][]string{{"K", "D", "E"}, {"D", "K", "E"}, {"D", "E", "K"}, {"E", "D", "K"}}[r.Intn(4)]
 	for _, c := range order {
 		mine(c)
@@ -365,8 +375,13 @@ func genRemTwoStep(g *Gen, idx int) {
 		if n > len(coins) {
 			n = len(coins)
 		}
-		ins := coins[:n]
+		ins := append([]string{}, coins[:n]...)
 		coins = coins[n:]
+		for i, c := range ins {
+			if stk[c] {
+				ins[i] = c + ":4" // sequence = frozen period + 1
+			}
+		}
 		if r.Intn(5) == 0 {
 			continue // this coin stays unspent
 		}
